@@ -145,6 +145,8 @@ def main():
         fixed = {ui for ui, (k, _) in enumerate(units) if k == "hckpt"}
     else:
         fixed = set()
+    # direct git-ai commands (ci local merge, squash-authorship): the operation under test, never removed
+    fixed |= {ui for ui, (k, _) in enumerate(units) if k == "ga"}
     text = None
     if same_text:
         _, viols = recorded.replay(dict(rec, rec=head + entries + tail))
